@@ -397,6 +397,23 @@ func runC09(e *Engine, r *Report, tier string) {
 					bad, badPos = why, e.InstrPos(s.Call)
 					continue
 				}
+				// a native action must not start another one: the inner snapshot/commit pair would write through the
+				// outer action's cache in the middle of it (whether the inner call sits in a helper or in the closure)
+				if s.Closure != nil {
+					for f := range e.Reach([]*ssa.Function{s.Closure}, func(x *ssa.Function) bool { return !isFx(x) }) {
+						if !isFx(f) {
+							continue
+						}
+						allCalls(f, func(c ssa.CallInstruction) {
+							if callName(c) == "ExecuteNativeAction" && c != s.Call {
+								bad, badPos = "a native action is started inside another native action (nested ExecuteNativeAction in "+e.FnKey(f)+")", e.InstrPos(c)
+							}
+						})
+					}
+				}
+				if bad != "" {
+					continue
+				}
 				if s.Closure == nil {
 					bad, badPos = "ExecuteNativeAction is not given a closure literal", e.InstrPos(s.Call)
 					continue
